@@ -46,6 +46,9 @@ type Header struct {
 
 func B64(b []byte) string { return rawB64.EncodeToString(b) }
 
+// B64Decode decodes canonical unpadded base64.
+func B64Decode(s string) ([]byte, error) { return rawB64.Strict().DecodeString(s) }
+
 // UnB64 decodes canonical unpadded base64 (no whitespace, zero trailing bits).
 func UnB64(s string) ([]byte, error) {
 	if strings.ContainsAny(s, "\r\n =") {
